@@ -73,13 +73,13 @@ func c12E(name string) int {
 // c12Field is a length / count / size field located in a seed by the seed's builder.
 type c12Field struct {
 	Name  string
-	Off   int    // offset of the encoded field in the seed
-	Len   int    // encoded length in the seed
-	Enc   string // u8 u16le u24le u32le u48le u64le uvarint cbor
-	Major byte   // cbor major type
-	Cur   uint64 // the consistent value
+	Off   int      // offset of the encoded field in the seed
+	Len   int      // encoded length in the seed
+	Enc   string   // u8 u16le u24le u32le u48le u64le uvarint cbor
+	Major byte     // cbor major type
+	Cur   uint64   // the consistent value
 	Extra []uint64 // further values worth trying, known to the seed's builder (e.g. the smallest value the parser's own check accepts)
-	Big   bool   // a 64-bit element count: pairs that rewrite one of its upper six bytes are not run (see bigByte)
+	Big   bool     // a 32/64-bit byte or element count: pairs that rewrite one of its upper bytes (index >= 2) are not run (see staticSkip)
 }
 
 func (f c12Field) max() uint64 {
@@ -170,13 +170,13 @@ func c12FieldVals(f c12Field, thorough bool) []uint64 {
 }
 
 type c12Dev struct {
-	Kind  string    `json:"kind"`            // identity | trunc | byte | byte2 | field | field2
-	Trunc int       `json:"trunc"`           // new length, -1 = not truncated
-	Off   [2]int    `json:"off"`             // byte edits (-1 = unused)
-	Val   [2]int    `json:"val"`             //
-	Fld   [2]int    `json:"fld"`             // field edits (-1 = unused)
-	FVal  [2]uint64 `json:"fval"`            //
-	Desc  string    `json:"desc,omitempty"`  // human description (not used for replay)
+	Kind  string    `json:"kind"`           // identity | trunc | byte | byte2 | field | field2
+	Trunc int       `json:"trunc"`          // new length, -1 = not truncated
+	Off   [2]int    `json:"off"`            // byte edits (-1 = unused)
+	Val   [2]int    `json:"val"`            //
+	Fld   [2]int    `json:"fld"`            // field edits (-1 = unused)
+	FVal  [2]uint64 `json:"fval"`           //
+	Desc  string    `json:"desc,omitempty"` // human description (not used for replay)
 }
 
 func c12NoDev(kind string) c12Dev {
@@ -215,15 +215,15 @@ type c12Fam struct {
 	Run     func(x *c12Exec, in []byte)
 	Bounds  string // description of the offsets covered (for the evidence)
 
-	offs, truncs           []int
-	fcases                 []c12FieldCase
-	fvals                  [][]uint64
-	nTrunc, nByte, nField  int
-	nPair, nFieldPair      int
-	work                   []byte
-	seedSig                string
-	fcaseIdx               map[[2]uint64]int
-	bigByte                map[int]bool // offsets of the upper bytes (index >= 2) of Big fields
+	offs, truncs          []int
+	fcases                []c12FieldCase
+	fvals                 [][]uint64
+	nTrunc, nByte, nField int
+	nPair, nFieldPair     int
+	work                  []byte
+	seedSig               string
+	fcaseIdx              map[[2]uint64]int
+	bigByte               map[int]bool // offsets of the upper bytes (index >= 2) of Big fields
 }
 
 // member keys identify ONE deviation of a pair (for the skip list of deviations that alone kill a worker)
@@ -249,8 +249,8 @@ func (f *c12Fam) members(d c12Dev) []int64 {
 	return out
 }
 
-// staticSkip: a pair is not run when one of its members rewrites an upper byte (index >= 2) of a 64-bit element
-// count (or sets such a field to 2^16 or more). Every such deviation is run alone (k = 1); alone it asks the parser
+// staticSkip: a pair is not run when one of its members rewrites an upper byte (index >= 2) of a 32/64-bit byte or
+// element count (or sets such a field to 2^16 or more). Every such deviation is run alone (k = 1); alone it asks the parser
 // for 512 KiB .. exabytes, i.e. it is slow, an allocation violation, or fatal to the worker, for every partner.
 func (f *c12Fam) staticSkip(d c12Dev) bool {
 	switch d.Kind {
@@ -794,37 +794,37 @@ func c12Batches(fams []*c12Fam) []c12Batch {
 }
 
 type c12Job struct {
-	Mode       string `json:"mode"` // range | single
-	Shard      string `json:"shard"`
-	Tier       string `json:"tier"`
-	StartBatch int    `json:"start_batch"`
-	StartCase  int    `json:"start_case"` // case number inside the family of StartBatch (-1 = batch start)
-	Family     string `json:"family"`
-	Dev        c12Dev `json:"dev"`
-	Out        string `json:"out"`
-	Prog       string `json:"prog"`
-	Scratch    string `json:"scratch"`
-	SeedHash   string `json:"seed_hash"`
-	DeadlineNs int64  `json:"deadline_ns"`
-	NoLimit    bool   `json:"no_limit"`
-	SeedCache  string `json:"seed_cache"`
+	Mode       string             `json:"mode"` // range | single
+	Shard      string             `json:"shard"`
+	Tier       string             `json:"tier"`
+	StartBatch int                `json:"start_batch"`
+	StartCase  int                `json:"start_case"` // case number inside the family of StartBatch (-1 = batch start)
+	Family     string             `json:"family"`
+	Dev        c12Dev             `json:"dev"`
+	Out        string             `json:"out"`
+	Prog       string             `json:"prog"`
+	Scratch    string             `json:"scratch"`
+	SeedHash   string             `json:"seed_hash"`
+	DeadlineNs int64              `json:"deadline_ns"`
+	NoLimit    bool               `json:"no_limit"`
+	SeedCache  string             `json:"seed_cache"`
 	Skip       map[string][]int64 `json:"skip,omitempty"` // per family: deviations that alone kill a worker
 }
 
 type c12Line struct {
-	T        string           `json:"t"` // viol | batch | done | deadline | error | incon | problem
-	Viol     *c12Viol         `json:"viol,omitempty"`
-	Batch    int              `json:"batch,omitempty"`
-	Evals    int64            `json:"evals,omitempty"`
-	NonTriv  int64            `json:"nontriv,omitempty"`
-	Calls    int64            `json:"calls,omitempty"`
-	Outcomes map[string]int64 `json:"outcomes,omitempty"`
-	Counts   map[string]int64 `json:"counts,omitempty"`
-	Msg      string           `json:"msg,omitempty"`
-	Skipped  int64            `json:"skipped,omitempty"`
-	SkippedStatic int64       `json:"skipped_static,omitempty"`
-	Ns       int64            `json:"ns,omitempty"`
-	Fam      string           `json:"fam,omitempty"`
+	T             string           `json:"t"` // viol | batch | done | deadline | error | incon | problem
+	Viol          *c12Viol         `json:"viol,omitempty"`
+	Batch         int              `json:"batch,omitempty"`
+	Evals         int64            `json:"evals,omitempty"`
+	NonTriv       int64            `json:"nontriv,omitempty"`
+	Calls         int64            `json:"calls,omitempty"`
+	Outcomes      map[string]int64 `json:"outcomes,omitempty"`
+	Counts        map[string]int64 `json:"counts,omitempty"`
+	Msg           string           `json:"msg,omitempty"`
+	Skipped       int64            `json:"skipped,omitempty"`
+	SkippedStatic int64            `json:"skipped_static,omitempty"`
+	Ns            int64            `json:"ns,omitempty"`
+	Fam           string           `json:"fam,omitempty"`
 }
 
 func c12SeedHash(fams []*c12Fam) string {
@@ -882,7 +882,7 @@ func c12ChildMain(t *testing.T, jobPath string) {
 	os.Setenv("VERIF_TIER", job.Tier)
 	os.Setenv("VERIF_SHARD", job.Shard)
 	runtime.MemProfileRate = 1 << 20 // every allocation of tens of MiB is sampled with certainty
-	debug.SetMemoryLimit(256 << 20) // keep garbage from piling up towards RLIMIT_AS
+	debug.SetMemoryLimit(256 << 20)  // keep garbage from piling up towards RLIMIT_AS
 	prog, err := c12MapProg(job.Prog, false)
 	if err != nil {
 		emit(c12Line{T: "error", Msg: "map progress page: " + err.Error()})
@@ -1018,6 +1018,12 @@ func c12ChildMain(t *testing.T, jobPath string) {
 				}
 			}
 			runOne(bt.Fam, f, ci, d, &evals, &nontriv)
+			if job.DeadlineNs > 0 && evals%16 == 0 && time.Now().UnixNano() > job.DeadlineNs {
+				emit(c12Line{T: "batch", Batch: bi, Evals: evals, NonTriv: nontriv, Calls: x.calls, Outcomes: x.outcomes, Counts: x.seen, Skipped: skipped, SkippedStatic: skippedStatic, Ns: int64(time.Since(t0)), Fam: f.Name})
+				binary.LittleEndian.PutUint64(prog[0:], ^uint64(0))
+				emit(c12Line{T: "deadline", Batch: bi})
+				return
+			}
 		}
 		if !bytes.Equal(f.work, f.Seed) {
 			emit(c12Line{T: "incon", Msg: fmt.Sprintf("[%s] the code under test modified its input buffer during batch %d; buffer restored", f.Name, bi)})
@@ -1039,23 +1045,23 @@ func c12ChildMain(t *testing.T, jobPath string) {
 // ---------------------------------------------------------------------------------------------
 
 type c12Parent struct {
-	R         *vkit.Report
-	dir       string
-	fams      []*c12Fam
-	batches   []c12Batch
-	seedHash  string
-	counts    map[string]int64
-	confirmed map[string]bool
-	calls     int64
-	deaths    int
-	seq       int
-	skipped   int64
+	R             *vkit.Report
+	dir           string
+	fams          []*c12Fam
+	batches       []c12Batch
+	seedHash      string
+	counts        map[string]int64
+	confirmed     map[string]bool
+	calls         int64
+	deaths        int
+	seq           int
+	skipped       int64
 	skippedStatic int64
-	famNs     map[string]int64
-	famEv     map[string]int64
-	deathNs   int64
-	skip      map[string][]int64       // per family: deviations that alone kill a worker (3/3)
-	probed    map[string]map[int64]bool // per family: member -> kills alone?
+	famNs         map[string]int64
+	famEv         map[string]int64
+	deathNs       int64
+	skip          map[string][]int64        // per family: deviations that alone kill a worker (3/3)
+	probed        map[string]map[int64]bool // per family: member -> kills alone?
 }
 
 type c12ChildResult struct {
@@ -1494,7 +1500,7 @@ func TestVerif_C12(t *testing.T) {
 	}
 	R := vkit.New("C12")
 	defer R.Finish()
-	R.Rule = "Seeds = one valid instance of every external format, produced by the repository's own writers / the reference encoder. Cases = the COMPLETE set of inputs within the deviation bound of a seed, enumerated in a fixed order: the unchanged seed, every truncation length, every offset x {0x00,0x01,0x7f,0x80,0xff,b^0x01,b^0x80}, every located length/count/size field x {0,1,2,max-1,max,consistent-1,consistent+1}, and for seeds <= 80 bytes (thorough 160) every PAIR of byte deviations and every pair of field deviations; large files: every offset of the header region and of the first/last 64 bytes of every structure plus a fixed stride (stated in bounds). Every case is run through all entry points of its format in a worker subprocess under RLIMIT_AS; oracle per call: returns (value or error) - a recovered panic, TotalAlloc growth above 64 MiB + 1000 x len(input), a fatal error or a stall of 20 s that reproduce 3/3 alone are violations. One evaluation = one deviated input through all entry points of its family; non-trivial = the sequence of (entry point, ok/error class/panic) differs from that of the unchanged seed, i.e. the deviation was noticed by the parser."
+	R.Rule = "Seeds = one valid instance of every external format, produced by the repository's own writers / the reference encoder. Cases = the COMPLETE set of inputs within the deviation bound of a seed, enumerated in a fixed order: the unchanged seed, every truncation length, every offset x {0x00,0x01,0x7f,0x80,0xff,b^0x01,b^0x80}, every located length/count/size field x {0,1,2,max-1,max,consistent-1,consistent+1}, and for seeds <= 80 bytes (thorough 200) every PAIR of byte deviations and every pair of field deviations; large files: every offset of the header region and of the first/last 64 bytes of every structure plus a fixed stride (stated in bounds). Every case is run through all entry points of its format in a worker subprocess under RLIMIT_AS; oracle per call: returns (value or error) - a recovered panic, TotalAlloc growth above 64 MiB + 1000 x len(input), a fatal error or a stall of 20 s that reproduce 3/3 alone are violations. One evaluation = one deviated input through all entry points of its family; non-trivial = the sequence of (entry point, ok/error class/panic) differs from that of the unchanged seed, i.e. the deviation was noticed by the parser."
 	dir, err := os.MkdirTemp(c12ScratchRoot(), "c12-")
 	if err != nil {
 		R.Internal("scratch: %v", err)
@@ -1565,7 +1571,7 @@ func TestVerif_C12(t *testing.T) {
 	R.Counters["entry_point_calls"] = p.calls
 	R.Counters["worker_deaths_or_stalls"] = int64(p.deaths)
 	R.Counters["pairs_not_run_because_one_member_alone_kills_the_worker"] = p.skipped
-	R.Counters["pairs_not_run_because_one_member_rewrites_an_upper_byte_of_a_64bit_element_count"] = p.skippedStatic
+	R.Counters["pairs_not_run_because_one_member_rewrites_an_upper_byte_of_a_32or64bit_count_field"] = p.skippedStatic
 	// bounds
 	total := 0
 	small, large := 0, 0
@@ -1597,13 +1603,15 @@ func TestVerif_C12(t *testing.T) {
 	R.Bounds["entry_points"] = c12Entries
 	si, sn := vkit.Shard()
 	for i, b := range p.batches {
-		if i%sn == si && len(R.Samples) < 6 && i%37 == si%37 {
+		if i%sn == si && i%(sn*13) == si {
 			f := fams[b.Fam]
-			if d, ok := f.caseAt(b.Lo); ok {
-				R.Sample(map[string]interface{}{"family": f.Name, "case": b.Lo, "deviation": f.describe(d)})
+			if d, ok := f.caseAt(b.Lo + (b.Hi-b.Lo)/2); ok {
+				R.Sample(map[string]interface{}{"family": f.Name, "case": b.Lo + (b.Hi-b.Lo)/2, "deviation": f.describe(d)})
 			}
 		}
 	}
 	R.Assume("a ReaderAt over the deviated bytes stands for the file / HTTP range source; manifest and linked-log entry points read a real file holding the deviated bytes")
-	R.Assume("RLIMIT_AS of 3 GiB stands for 'the machine's memory': a single allocation the worker cannot satisfy kills it (fatal error: out of memory) and is reported under C12|fatal")
+	R.Assume("RLIMIT_AS of 3.2 GiB stands for 'the machine's memory': a single request the worker cannot satisfy kills it (fatal error: out of memory); when that reproduces 3/3 it is reported under the same key as an allocation finding, C12|alloc|<entry>|<allocating function>")
+	R.Assume("runtime/metrics /gc/heap/allocs:bytes is read around every call; it is the same counter as runtime.MemStats.TotalAlloc without the stop-the-world of ReadMemStats")
+	R.Assume("pairs of deviations in which one member rewrites an upper byte of a 32/64-bit count field, or in which one member alone kills the worker, are not run (counted in counters); every such deviation is run alone")
 }
